@@ -42,6 +42,7 @@ _STATS = re.compile(r"(\d+) states generated, (\d+) distinct states found")
 _DEPTH = re.compile(r"The depth of the complete state graph search is (\d+)")
 _INV = re.compile(r"Invariant (\S+) is violated")
 _PROP = re.compile(r"(?:Action|Temporal) property (\S+)? ?(?:line .*)?is violated|Temporal properties were violated")
+_PRINTED = re.compile(r'<<\s*"(\w+)",\s*(?:(-?\d+),\s*)?"((?:[^"\\]|\\.)*)"\s*>>', re.S)
 _COV = re.compile(r"^<(\w+) line \d+, col \d+ to line \d+, col \d+ of module (\w+)>: (\d+):(\d+)")
 
 
@@ -98,11 +99,14 @@ def run_tlc(module, cfg_text, workers=16, timeout=1800, env=None, simulate=None,
             res.violated.append(m.group(1) or m.group(2))
         if "Temporal properties were violated" in out:
             res.violated.append("temporal")
+        # PrintT output: <<"TAG", "string">> or <<"TAG", int, "string">>; TLC's pretty printer may wrap a long tuple over
+        # several lines, so match across line breaks on the whole output
+        for m in _PRINTED.finditer(out):
+            if m.group(2) is not None:
+                res.printed.append((m.group(1), '%s, "%s"' % (m.group(2), m.group(3))))
+            else:
+                res.printed.append((m.group(1), '"%s"' % m.group(3)))
         for line in out.splitlines():
-            if line.startswith('<<"'):
-                m = re.match(r'<<"(\w+)", (.*)>>\s*$', line)
-                if m:
-                    res.printed.append((m.group(1), m.group(2)))
             mc = _COV.match(line)
             if mc:
                 res.coverage[mc.group(1)] = (int(mc.group(3)), int(mc.group(4)))
